@@ -273,6 +273,13 @@ Proof.
   rewrite rd_range by (auto; lia). change (16 * 0) with 0. change (16 * 1) with 16. now rewrite slice_0.
 Qed.
 
+Lemma read_attr_w_dev s : inv s -> bud s <> 0 -> 1 <= MR -> 16 <= len (mem s) ->
+  read_attr_w S rd s = (Ok (attr_parse (take 16 (mem s))), s).
+Proof.
+  intros. unfold read_attr_w. change [0] with (zrange 0 1).
+  rewrite rd_range by (auto; lia). change (16 * 0) with 0. change (16 * 1) with 16. now rewrite slice_0.
+Qed.
+
 Lemma rd_loop_dev s last nbr : inv s -> bud s <> 0 -> 1 <= nbr <= MR -> nbr <= 80 -> last <= 65536 ->
   16 * last <= len (mem s) ->
   forall fuel i acc, 1 <= i -> (Z.to_nat (last - i) <= fuel)%nat ->
@@ -290,7 +297,7 @@ Proof.
 Qed.
 
 Lemma read_ndef_dev s a : inv s -> bud s <> 0 -> attr_parse (take 16 (mem s)) = Some a ->
-  a_ver a / 16 = 1 -> 1 <= a_nbr a <= MR -> a_nbr a <= 80 -> 0 <= a_ln a ->
+  a_ver a / 16 = 1 -> 1 <= a_nbr a <= MR -> a_nbr a <= 80 -> 0 <= a_ln a <= a_nmaxb a * 16 ->
   let last := 1 + (a_ln a + 15) / 16 in
   last <= 65536 -> 16 * last <= len (mem s) ->
   read_ndef S rd s = (Ok (Ndef (attr_readable a) (attr_writeable a) (a_nmaxb a * 16)
@@ -299,8 +306,8 @@ Proof.
   intros Hi Hb Ha Hv Hn H80 Hl last H64 Hm. unfold read_ndef.
   rewrite read_attr_dev by (auto; lia). rewrite Ha.
   replace (negb (a_ver a / 16 =? 1)) with false by lia.
-  replace (a_nbr a =? 0) with false by lia. fold last.
-  rewrite (rd_loop_dev s last (a_nbr a)) by (auto; lia).
+  replace (a_nbr a =? 0) with false by lia. replace (a_ln a >? a_nmaxb a * 16) with false by lia. fold last.
+  rewrite (rd_loop_dev s last (Z.min (a_nbr a) 15)) by (auto; lia).
   cbn [app]. rewrite Z.max_r by lia. reflexivity.
 Qed.
 
@@ -449,7 +456,7 @@ Proof.
   intros W Hd Hb. destruct (wf_basic s a W) as (B1 & B2 & B3 & B4).
   destruct (t3_plan_ok s a d W Hd) as (P1 & P2 & P3).
   pose proof (len_nonneg d) as H0. destruct (wr_batch_bounds s a (len d) W H0) as (Hwb & _).
-  unfold write_ndef. rewrite read_attr_dev by (try apply (wf_inv s a W); lia). rewrite (wf_attr s a W).
+  unfold write_ndef. rewrite read_attr_w_dev by (try apply (wf_inv s a W); lia). rewrite (wf_attr s a W).
   replace (wr_batch a (len d) =? 0) with false by lia.
   destruct (run_cmds_budget (t3_plan a d) s (wf_inv s a W) P1) as (s' & Hi' & Hrun).
   cbv zeta in Hrun. destruct ((bud s <? 0) || (Z.of_nat (length (t3_plan a d)) <=? bud s)) eqn:E.
@@ -457,8 +464,8 @@ Proof.
   - destruct Hrun as (R1 & R2). exists s', (Err (TagCommandError 0)). rewrite R1, R2. auto.
 Qed.
 
-Lemma write_ndef_dead s a d : t3_wf s a -> bud s = 0 -> write_ndef S rd wr s d = (Crash TypeErr, s).
-Proof. intros W Hb. unfold write_ndef, read_attr. now rewrite H_rd_dead by (try apply (wf_inv s a W); auto). Qed.
+Lemma write_ndef_dead s a d : t3_wf s a -> bud s = 0 -> write_ndef S rd wr s d = (Err (TagCommandError 0), s).
+Proof. intros W Hb. unfold write_ndef, read_attr_w. now rewrite H_rd_dead by (try apply (wf_inv s a W); auto). Qed.
 
 (* ------------------------------------------------------------ a fresh reader on the final memory *)
 Lemma final_mem_len s a d : t3_wf s a -> len d <= 16 * a_nmaxb a -> len (final_mem a d (mem s)) = len (mem s).
@@ -567,7 +574,7 @@ Proof.
   assert (Hset : set_octets S rd wr (Ndef true true (a_nmaxb a * 16) old) s d = write_ndef S rd wr s d).
   { unfold set_octets. cbn [negb]. now replace (len d >? a_nmaxb a * 16) with false by lia. }
   rewrite Hset. destruct (Z.eq_dec k 0) as [Hk0|Hk0].
-  - exists (Crash TypeErr), s. rewrite (write_ndef_dead s a d W Hk0).
+  - exists (Err (TagCommandError 0)), s. rewrite (write_ndef_dead s a d W Hk0).
     split; [reflexivity|]. split; [apply (wf_inv s a W)|]. split; [auto|]. split; [intro; lia|].
     intro. exfalso. subst n. rewrite plan_length in *. lia.
   - destruct (write_ndef_run s a d W) as (s' & r & Hw & Hi & Hm); [lia | exact Hk0 |].
@@ -602,7 +609,7 @@ Proof.
   { intro j. destruct (apply_cmds_shape 0 hi ltac:(lia) (firstn j (t3_plan a d)) (mem s)) as (A & _ & C); [|auto].
     apply Forall_firstn. rewrite Forall_forall in *. intros c Hc. eapply cmd_ok_shape; auto. }
   destruct (Z.eq_dec (bud s) 0) as [Hk0|Hk0].
-  - exists (Crash TypeErr), s. rewrite (write_ndef_dead s a d W Hk0). repeat split; auto. exists 0%nat. reflexivity.
+  - exists (Err (TagCommandError 0)), s. rewrite (write_ndef_dead s a d W Hk0). repeat split; auto. exists 0%nat. reflexivity.
   - destruct (write_ndef_run s a d W) as (s' & r & Hw & Hi & Hm); [lia | exact Hk0 |].
     exists r, s'. split; [exact Hw|].
     destruct ((bud s <? 0) || (Z.of_nat (length (t3_plan a d)) <=? bud s)).
